@@ -9,3 +9,8 @@ pub mod allocator {
         get_maximum_aligned_size, get_maximum_aligned_size_inner,
     };
 }
+
+/// Heap layout helpers (`util::heap::{space_descriptor, layout::*}` are `pub(crate)`).
+pub mod heap {
+    pub use crate::util::heap::space_descriptor::SpaceDescriptor;
+}
